@@ -73,6 +73,8 @@ def gen_case(rng, kind=None, force=None):
     size = force.get('size')
     if size is None:
         size = rng.choice([0, 0, 1, 1, 2, 2, 3, 4, 5, 6])
+        if kind not in ARITY and rng.random() < 0.04:
+            size = rng.randint(60, 130)      # enough corners to leave the range of a small integer type
     if kind in ARITY:
         vcounts = None
         ncorners = ARITY[kind] * size
@@ -100,6 +102,7 @@ def gen_case(rng, kind=None, force=None):
     via = 'load' if rng.random() < 0.25 and not (kind == 'pgons' and 0 in vcounts) else 'create'
     case = dict(kind=kind, via=via, material=rng.choice([None, 'a', 'a', 'b', 'c']), voff=offs[0], vdata=vdata, normal=normal, tex=tex,
                 stride=stride, stream=stream, vcounts=vcounts,
+                vcdtype=rng.choice(['int32', 'int32', 'int64', 'uint8', 'int8', 'int16', 'uint16']),     # counts are small numbers: callers hand them over in any integer type
                 matrices=[rand_matrix(rng) for _ in range(rng.choice([1, 1, 1, 2]))],
                 bindings=[[rng.choice(['a', 'b', 'c']), rng.randint(0, 2)] for _ in range(rng.choice([0, 1, 1, 2, 3]))])
     return case
@@ -237,7 +240,7 @@ def build(case):
         elif case['kind'] == 'line':
             p = geom.createLineSet(idx, il, case['material'])
         elif case['kind'] == 'plist':
-            p = geom.createPolylist(idx, numpy.array(case['vcounts'], dtype=numpy.int32), il, case['material'])
+            p = geom.createPolylist(idx, numpy.array(case['vcounts'], dtype=getattr(numpy, case.get('vcdtype', 'int32'))), il, case['material'])
         else:
             p = geom.createPolygons([numpy.array(s, dtype=numpy.int32) for s in poly_streams(case)], il, case['material'])
     except Exception as e:
